@@ -28,7 +28,7 @@ ASSUMPTIONS = [
     "models/latexdoc.py designates the labelled object by LaTeX's rule: \\refstepcounter sets \\@currentlabel "
     "locally to the current group, every environment is a group, sectioning commands act at the outer level",
     "labels are generated only where the statement speaks: a numbered object is current and asserted; not after "
-    "a starred/unnumbered unit, not before the first numbered object, not in footnotes; one label per object",
+    "a starred/unnumbered unit, not before the first numbered object, not in footnotes; at most two labels per object (then either key may be the identifier)",
     "the first row of an eqnarray may be represented by the eqnarray node itself (it carries the row's number)",
     "numbers are those of the C08 model; constructs listed as C08 known findings are excluded here as well",
     "nodes are identified by (node name, first marker word inside the node)",
@@ -64,6 +64,14 @@ def _features(case, a):
             feats.add("backward-ref")
         if r.page:
             feats.add("pageref")
+    objs = [l.obj for l in a.labels.values()]
+    if len(objs) != len(set(objs)):
+        feats.add("two-labels-on-one-object")
+        first = dict((o, min((l.order, n) for n, l in a.labels.items() if l.obj == o)[1]) for o in set(objs)
+                     if objs.count(o) > 1)
+        if any((not r.dangling) and (not r.before_label) and first.get(a.labels[r.name].obj) == r.name
+               for r in a.refs):
+            feats.add("ref-to-first-of-two-labels-after-both")
     pending2 = any(v >= 2 for v in fwd.values())
     multi_fwd = any(nref[k] >= 2 and fwd.get(k) for k in nref)
     if pending2:
@@ -142,7 +150,9 @@ def judge(case):
             return fail(key, {"label": r.name, "expected": [o.name, o.first, o.number], "got": got,
                               "where": where, "source": a.source}, fl)
         tid = plain(getattr(tgt, "id", None))
-        if tid != r.name:
+        # an object with two labels carries one of them as its identifier
+        same_obj = [n for n, l in a.labels.items() if l.obj == lab.obj]
+        if tid != r.name and not (len(same_obj) > 1 and tid in same_obj):
             other = a.labels.get(tid)
             if other is not None and other.cls != "clean":
                 # the id was taken over by another label that landed on this node
@@ -251,7 +261,7 @@ def judge_moved(case):
 
 
 def _excl():
-    excl = ["math-group-charsub", "math-eqnarray-charsub", "enum-optional-label"]
+    excl = ["math-group-charsub", "math-eqnarray-charsub", "enum-optional-label", "+multi-label"]
     if K_STALE in KNOWN:
         excl.append("label-stale")
     if K_BULLET in KNOWN:
